@@ -2607,10 +2607,6 @@ def restore_package(trees, stats):
   except Exception as e:
     stats['cross_module_error'] = repr(e)
   try:
-    push_down_new_base_methods(trees, stats)
-  except Exception as e:
-    stats['pushdown_error'] = repr(e)
-  try:
     inline_new_properties(trees, stats)
   except Exception as e:
     stats['property_error'] = repr(e)
@@ -2635,6 +2631,10 @@ def restore_package(trees, stats):
     except Exception as e:
       stats['absorb_error'] = repr(e)
   restore_renamed(trees, stats)
+  try:
+    push_down_new_base_methods(trees, stats)
+  except Exception as e:
+    stats['pushdown_error'] = repr(e)
   for rel, tree in trees.items():
     try:
       fuse_generators(tree, rel, stats)
